@@ -2178,6 +2178,9 @@ fn check_definition<'a>(
     visited: &mut HashSet<usize>,
     errors: &mut Vec<Error>,
 ) {
+    #[cfg(feature = "verif")]
+    crate::verif_hooks::order_check_call();
+
     // Collect the free variables of the definition.
     let mut variables = HashSet::new();
     free_variables(&definitions[current_index].2, 0, &mut variables);
